@@ -3,6 +3,7 @@ package main
 import (
 	"fmt"
 	"go/token"
+	"go/types"
 	"strings"
 
 	"golang.org/x/tools/go/ssa"
@@ -40,6 +41,7 @@ func runC20(c *Ctx) {
 	}
 	c.checkCopyOnEnqueueFor("O-4 buffers crossing goroutines are private copies", senders)
 	c.checkForeignGlobalWrites("O-5 process-wide library objects are not modified", scope)
+	c.checkGoroutineFieldWrites("O-6 goroutine bodies modify only state with a protection row", scope)
 	if c.Thorough {
 		c.inferGuardCandidates(scope)
 	}
@@ -254,5 +256,91 @@ func (c *Ctx) checkForeignGlobalWrites(rule string, scope []*ssa.Function) {
 	}
 	if bad == 0 {
 		c.ok(rule, "no store through a package-level variable of another module", "-", fmt.Sprintf("%d stores examined", nStores))
+	}
+}
+
+// checkGoroutineFieldWrites: a function that runs as a goroutine body (the
+// target of a go statement, with the unexported helpers it alone calls) stores
+// to - or hands the memory of - a field of an object it did not create only if
+// that field has a row in the guarded-by table. The table rows are then
+// checked by O-1; a field without a row that a goroutine body modifies is
+// shared state nobody decided how to protect (for example a scratch buffer
+// moved from a local variable into the connection struct).
+func (c *Ctx) checkGoroutineFieldWrites(rule string, scope []*ssa.Function) {
+	p := c.P
+	inTable := map[string]bool{}
+	for _, r := range guardTable {
+		inTable[r.key()] = true
+	}
+	le := p.Locks()
+	bodies := map[*ssa.Function]ssa.Instruction{}
+	for _, fn := range scope {
+		for _, ci := range callsIn(fn) {
+			g, ok := ci.(*ssa.Go)
+			if !ok {
+				continue
+			}
+			if t := staticCallee(g); t != nil && t.Blocks != nil && p.IsRepoFn(t) {
+				for _, h := range helperFns(t, 2) {
+					if _, seen := bodies[h]; !seen {
+						bodies[h] = g
+					}
+				}
+			}
+		}
+	}
+	bad := 0
+	nAcc := 0
+	repoField := func(f *types.Var) bool {
+		return f.Pkg() != nil && strings.HasPrefix(f.Pkg().Path(), modPath)
+	}
+	for body, g := range bodies {
+		allInstrs(body, func(in ssa.Instruction) {
+			var addr ssa.Value
+			what := ""
+			switch x := in.(type) {
+			case *ssa.Store:
+				addr, what = x.Addr, "stores to"
+			case *ssa.Slice:
+				// c.buf[:] of an array field: the memory is handed to whoever gets the slice
+				addr, what = x.X, "slices"
+			default:
+				return
+			}
+			// element of an array field counts as the field
+			for {
+				if ia, ok := addr.(*ssa.IndexAddr); ok {
+					addr = ia.X
+					continue
+				}
+				break
+			}
+			base, f, ok := fieldOfAddr(addr)
+			if !ok || !repoField(f) {
+				return
+			}
+			if what == "slices" {
+				if _, isArr := f.Type().Underlying().(*types.Array); !isArr {
+					return
+				}
+			}
+			if isFreshBase(body, base, in) {
+				return
+			}
+			nAcc++
+			k := fieldKey(base, f)
+			if inTable[k] {
+				return
+			}
+			// under some lock of the repository: protected by construction of this access
+			if stx, ok := le.at[in]; ok && !stx.top && len(stx.m) > 0 {
+				return
+			}
+			bad++
+			c.viol(rule, p.FnName(body)+" "+what+" "+k, p.instrPos(in), "the goroutine started at "+p.instrPos(g)+" modifies (or hands out the memory of) a field that has no row in the guarded-by table and holds no lock here: two goroutines of successive or concurrent calls share it without synchronisation")
+		})
+	}
+	if bad == 0 {
+		c.ok(rule, "goroutine bodies store only to tabled fields, fresh objects, or under a lock", "-", fmt.Sprintf("%d goroutine-body functions, %d field stores/slices of non-fresh objects", len(bodies), nAcc))
 	}
 }
